@@ -29,7 +29,7 @@ Print Assumptions C02_A_mul3_full.
 
 Theorem C02_A_change_basis_full : forall a b : nat -> R,
   (A_change_basis_3 a b = flat_A 3%nat (spec_A_change_basis 3%nat (full_A 3%nat a) (full_r 3%nat b))).
-Proof. intros; exact A_change_basis_3_ok a b. Qed.
+Proof. intros; exact (A_change_basis_3_ok a b). Qed.
 Print Assumptions C02_A_change_basis_full.
 
 Theorem C02_A_stpd_full : forall a : nat -> R,
@@ -55,7 +55,7 @@ Print Assumptions C02_B_expr_full.
 
 Theorem C02_B_change_basis_full : forall a b : nat -> R,
   (B_change_basis_3 a b = flat_B 3%nat (spec_B_change_basis 3%nat (full_B 3%nat a) (full_r 3%nat b))).
-Proof. intros; exact B_change_basis_3_ok a b. Qed.
+Proof. intros; exact (B_change_basis_3_ok a b). Qed.
 Print Assumptions C02_B_change_basis_full.
 
 Theorem C02_B_tpld2_full : forall a b : nat -> R,
@@ -81,12 +81,12 @@ Print Assumptions C02_B_d2det_full.
 
 Theorem C02_DC_mul_full : forall a b : nat -> R,
   (DC_mul_3 a b = flat_B 3%nat (spec_DC_mul 3%nat (full_D 3%nat a) (full_C 3%nat b))).
-Proof. intros; exact DC_mul_3_ok a b. Qed.
+Proof. intros; exact (DC_mul_3_ok a b). Qed.
 Print Assumptions C02_DC_mul_full.
 
 Theorem C02_BD_mul_full : forall a b : nat -> R,
   (BD_mul_3 a b = flat_D 3%nat (spec_BD_mul 3%nat (full_B 3%nat a) (full_D 3%nat b))).
-Proof. intros; exact BD_mul_3_ok a b. Qed.
+Proof. intros; exact (BD_mul_3_ok a b). Qed.
 Print Assumptions C02_BD_mul_full.
 
 Theorem C02_C_change_basis_full : forall a b : nat -> R,
